@@ -133,6 +133,30 @@ def execHttp (g : Arc.Generated.C11.DryGate) (c : Cfg) (dryFlag confirm : Bool)
     if !confirm && !dryFlag then (store, none)
     else ((run c (!confirm) store pol nowNs).1, some (run c (!confirm) store pol nowNs).2)
 
+/-! ### execution records and crashes
+
+`retention_executions` rows (`running` at start, `completed`/`failed` at the end). A killed run
+leaves its row `running` forever. The code that exists never reads these rows when it runs a policy
+(generated fact `runIgnoresExecutionRecords`), so in the model a run is a function of the store
+only; the rows are carried along to state exactly that. -/
+
+inductive ExecStatus | running | completed | failed
+deriving DecidableEq, Repr
+
+structure Sys where
+  store : Store
+  execs : List (Nat × ExecStatus)   -- (policy id, status), newest first
+
+/-- a scheduled / confirmed run of policy `pid` -/
+def Sys.exec (c : Cfg) (s : Sys) (pid : Nat) (pol : Policy) (nowNs : Int) : Sys × Report :=
+  ({ store := (run c false s.store pol nowNs).1, execs := (pid, .completed) :: s.execs },
+   (run c false s.store pol nowNs).2)
+
+/-- a run of policy `pid` killed after it removed the files `gone` (any subset of the store) and
+before `recordExecutionComplete` -/
+def Sys.crash (s : Sys) (pid : Nat) (gone : PFile → Bool) : Sys :=
+  { store := s.store.filter (fun f => !gone f), execs := (pid, .running) :: s.execs }
+
 /-- `handleCreate` validation -/
 def policyValid (pol : Policy) : Bool := decide (0 < pol.ret) && decide (pol.buf < pol.ret)
 
